@@ -257,7 +257,7 @@ def gen(ctx):
                 i += 1
                 yield {"kind": "dm", "g": g, "L": L, "S": S, "fam": fams[i % 5], "src": "smp-dm4"}
     # structured random, n = 5..7 (the order-dependent incompleteness of the unfixed DFS starts at 5)
-    N = 2500 if tier == "quick" else 20000
+    N = 2000 if tier == "quick" else 20000
     for j in range(N):
         n = rng.choice((5, 5, 6, 6, 7, 7, 8))
         g = rand_admg(rng, n)
